@@ -3,7 +3,7 @@
    render both.  Output of a case: model lines, then "#SPEC", then oracle lines (or one line
    "EXEMPT <reason>" when the oracle does not apply, e.g. a schema that is not well-formed). *)
 From GT Require Export Sexp Render Probe.
-From GTS Require Import SpecLin Annot WfSchema SpecValid SpecCollect SpecRules ExtOps IntrospectOps.
+From GTS Require Import SpecLin Annot WfSchema SpecValid SpecCollect SpecRules ExtOps IntrospectOps SpecTransform.
 Local Open Scope string_scope.
 
 Definition render_annot (s : sdocument) (d : document) : list string :=
@@ -171,7 +171,12 @@ Definition run_case (s : sdocument) (op : string) (args : list sexp) : list stri
     match args with
     | [d; SL [Atom _; Atom m; Atom k; Atom sa]] =>
         match d_document d, parse_N m, parse_N k, parse_N sa with
-        | Some d, Some m, Some k, Some sa => render_transform d m k sa
+        | Some d, Some m, Some k, Some sa =>
+            (* oracle: the call log is the fold of the logging hook over the specification's list
+               of hook calls, the resulting document the specification's structural map *)
+            List.app (render_transform d m k sa)
+                     ("#SPEC" :: List.app (rev (fold_left (pre (probe m k sa)) (hook_calls d) []))
+                                          ["DOC " ++ x_document (smap_document (probe m k sa) d)])
         | _, _, _, _ => ["BADINPUT"]
         end
     | _ => ["BADINPUT"]
